@@ -132,8 +132,13 @@ def gen_docs(ctx, total):
     docs = []
     nvalid = int(total * 0.13)
     progs = []
+    import navlib
     for _ in range(nvalid):
         prog = semtest.well_typed(rng)
+        if rng.random() < 0.4:
+            # legal shadowing: a parameter / variable named like its procedure, a type (or `int`), another or a predefined
+            # procedure - parameter types are resolved globally, variable types with the locals entered so far
+            prog, _ = navlib.shadow_variants(prog, rng, p=0.6)
         progs.append(prog)
         toks = splgen.flatten(prog)
         docs.append(Doc("valid", render(toks, rng, 0.08, rng.choice(["\n", "\n", "\r\n"])), [], prog=prog))
